@@ -163,7 +163,7 @@ def differential(fn, seed_value, label, count=20):
         try:
             kwargs = {name: _sample_value(param.annotation, rng) for name, param in sig.parameters.items()}
             if sampler is not None:
-                kwargs.update(sampler(rng, kwargs) or {})
+                kwargs.update({key: val for key, val in (sampler(rng, kwargs) or {}).items() if key in kwargs})
         except TypeError:
             break
         before = api.REACHED
